@@ -2,6 +2,7 @@
 from __future__ import annotations
 
 import math
+import re
 from fractions import Fraction as F
 
 import numpy as np
@@ -39,6 +40,11 @@ META = {
     "edge_index with the loop-variable semantics of the code (walks the boundary exactly once for sides >= 2, equals C03's "
     "closed form there; degenerate shapes proved as found) and quasi_random_r2 (points in [0,1)^2 for every sign-preserving "
     "rounding, inside the shape when scaled; bit-exact correspondence with binary64 products).  The "
+    "Third increment: norm_xy as an executable model (every float operation a rounding step; in exact arithmetic it is the "
+    "field-generic model the norm_xy theorems are about) compared with the code in binary64; Poly2d.__call__ on arrays of any "
+    "rank (equal shapes pointwise; P(X) for X of shape (*s, 2) returns shape (*reversed(s), 2) -- the axis reversal beyond "
+    "Nx2 is pinned as found).  Float pipelines whose operation order is internal (norm_xy, quasi_random_r2) are compared "
+    "with a tolerance: bit-identical today, an ulp-level difference is counted, only a real difference fails.  The "
     "model is tied to /repo on every run by an exact differential correspondence (all doubles for the "
     "split/int helpers, quotient-constructed dyadic operands elsewhere, exhaustive at tolerance edges; every public call "
     "form and rejected argument shape of the glue) and an independent Fraction oracle on arbitrary doubles; fits are also "
@@ -58,10 +64,9 @@ META = {
     "private helpers _snap_edge_pos / _snap_edge, the design rows handed to LAPACK as multisets) are soft or skipped with "
     "a note when the interception point is gone; only observable behaviour decides.",
     "inventory_not_modelled": "odc/geo/math.py parts without a Lean mirror in Model/C20*: quasi_random_r2 beyond 2^24 indices "
-    "(float32 arange collapses; observation), norm_xy has a field-generic model (Lemmas/C20e, sqrt as witnesses) but no driver op, "
+    "(float32 arange collapses; observation), norm_xy's sqrt values are witnesses and sums of 8 or more distances (numpy pairwise summation) are outside the executable model, "
     "Poly2d.fit end to end (dispatch, design rows, de-normalisation, cost and the fit theorems are modelled; LAPACK lstsq is a "
-    "parameter), Poly2d.__call__ with arrays of more than one dimension (1-d and Nx2 are modelled; an (a,b,2) array comes back "
-    "with its leading axes reversed -- outside the documented Nx2 contract), overflow of finite arithmetic to inf, signed zeros, "
+    "parameter), Poly2d.__call__ broadcasting of differently shaped N-d arrays (equal shapes, scalars and 1-d broadcasting are modelled), overflow of finite arithmetic to inf, signed zeros, "
     "non-finite inputs of decompose_rws / affine_from_axis / Bin1D / Poly2d, get_scale_at_point (oracle only).",
     "technique": "Lean 4 proof over hand model + exhaustive/random differential correspondence with real code",
     "design_ref": "DESIGN.md §4 C20",
@@ -531,9 +536,9 @@ def sec_snap_grid(R: Run, M):
     ress = [F(1), F(-1), F(3, 2), F(-3, 4), F(10), F(-1, 8)]
     offs = [None, F(0), F(1, 2), F(1, 4), F(127, 128)]
     tolx = [TOL2, F(1, 128), F(0), TOL6, F(1, 4)]
-    for res in ress[: R.pick(4, 6)]:
+    for res in ress[: R.pick(3, 6)]:
         for off in offs:
-            for tol in tolx[: R.pick(3, 5)]:
+            for tol in tolx[: R.pick(2, 5)]:
                 for q0 in qs:
                     for q1 in qs:
                         if q1 < q0 or q1 - q0 > 3:
@@ -541,7 +546,7 @@ def sec_snap_grid(R: Run, M):
                         one(q0 * abs(res), q1 * abs(res), res, off, tol, "small")
     # quotients a hair (1e-6 ... 1 ulp) away from integers / half-integers / the tolerance threshold; power-of-two
     # pixel sizes keep x/res exact, so the model must agree exactly
-    for _ in range(R.pick(3000, 30000)):
+    for _ in range(R.pick(2000, 30000)):
         res = F(rng.choice([-1, 1])) * F(2) ** rng.randint(-6, 5)
         off = rng.choice([None, F(0), F(1, 2), F(1, 4)])
         tol = rng.choice([TOL2, F(0), TOL6, F(1e-10), F(1, 128)])
@@ -583,7 +588,7 @@ def sec_snap_grid(R: Run, M):
             R.notes.append("private snap-edge helpers differ from the model's intermediate steps (not a violation; snap_grid decides): "
                            + repr(diff[:3]))
     # random large, quotient construction x = q * |res|
-    for _ in range(R.pick(4000, 40000)):
+    for _ in range(R.pick(2500, 40000)):
         res = F(rng.choice([-1, 1]) * rng.choice([1, 3, 5, 10, 25, 30, 1000, rng.randint(1, 1023)])) * F(2) ** rng.randint(-12, 6)
         fb = rng.choice([2, 7, 8, 10])
         span_bits = rng.randint(0, 20)
@@ -598,7 +603,7 @@ def sec_snap_grid(R: Run, M):
     # non-dyadic pixel sizes, interval ends EXACTLY on k*|res| (+ anchor) as doubles, on the grid edges the code itself
     # reports (tx + i*res) and one ulp either side: two-sided against the documented formula in binary64 in the code's
     # operation order (floor / ceil of the correctly rounded quotient), plus the property predicates with slack
-    for _ in range(R.pick(4000, 40000)):
+    for _ in range(R.pick(2500, 40000)):
         r = rng.choice(NONDY)
         res = rng.choice([-1, 1]) * r
         off = rng.choice([None, 0.0, 0.5, 0.25, 0.1])
@@ -634,7 +639,7 @@ def sec_snap_grid(R: Run, M):
                         scale * F(1, 10**9), key_prefix="snap-grid-float", extra={"floats": case["floats"]})
 
     # float stream: arbitrary doubles, judged by the Fraction oracle only
-    for _ in range(R.pick(4000, 40000)):
+    for _ in range(R.pick(2500, 40000)):
         mag = 10.0 ** rng.uniform(-6, 8)
         res = rng.choice([-1, 1]) * rng.choice([mag, 30.0, 0.00025, 1 / 3, 10.0, 0.1, 1e-6, 100.0])
         r = abs(res)
@@ -1811,6 +1816,56 @@ def sec_glue(R: Run, M, Affine):
             R.oracle(ok, "poly2d-array-call-differs-from-pointwise-evaluation",
                      {"k": k, "cc": list_s(cc, pt_s), "A": aff_in(A), "x": tx, "y": ty},
                      f"P(x, y) = {got[0].tolist()}, pointwise exact {[tuple(map(float, w)) for w in want]}", sig=f"call2-pointwise|{form}")
+    # ---- arrays of more than one dimension: P(X) for X of shape (*shape, 2) and P(Xa, Ya) for equally shaped N-d arrays
+    for _ in range(R.pick(300, 3000)):
+        k = rng.choice([2, 2, 3])
+        cc = [(F(rng.randint(-8, 8), 4), F(rng.randint(-8, 8), 4)) for _ in range(k * k)]
+        kind = rng.choice(["st", "rot", "shear"])
+        A = rnd_aff(kind)
+        shape = rng.choice([(3,), (1,), (2, 3), (3, 2), (1, 4), (2, 2), (2, 3, 2), (2, 1, 3), (0,), (2, 0)])
+        n = int(np.prod(shape))
+        pts = [(F(rng.randint(-16, 16), 4), F(rng.randint(-16, 16), 4)) for _ in range(n)]
+        if not all(exact_pt(cc, k, A, x, y) for x, y in pts):
+            R.count("glue:skipped-inexact")
+            continue
+        arr = np.asarray([[float(c[0]), float(c[1])] for c in cc], dtype="float64").reshape(k, k, 2)
+        P = M.Poly2d(arr, Affine(*[float(v) for v in A]))
+        X = np.asarray([[float(x), float(y)] for x, y in pts], dtype="float64").reshape(tuple(shape) + (2,))
+        head = f"{k} {list_s(cc, pt_s)} {aff_in(A)}"
+        got = []
+
+        def fl2():
+            o = np.asarray(P(X))
+            got.append(o)
+            if o.shape != tuple(reversed(shape)) + (2,):
+                return f"SHAPE:{o.shape}"
+            return "[" + ",".join(f"{frac_s(float(r[0]))};{frac_s(float(r[1]))}" for r in o.reshape(-1, 2)) + "]"
+
+        R.corr(f"c20 polycalllast2 {head} {list_s(list(shape), str)} {list_s(pts, pt_s)}", fl2, sig=f"polycalllast2|rank{len(shape)}|{kind}")
+        if got and len(shape) == 1 and n:
+            want = [value(cc, k, A, x, y) for x, y in pts]
+            ok = got[0].shape == (n, 2) and all((F(float(o[0])), F(float(o[1]))) == w for o, w in zip(got[0], want))
+            R.oracle(ok, "poly2d-array-call-differs-from-pointwise-evaluation", {"k": k, "cc": list_s(cc, pt_s), "A": aff_in(A), "pts": list_s(pts, pt_s)},
+                     f"P(Nx2) = {got[0].tolist()}", sig="nx2-pointwise|rank1")
+        # two equally shaped arrays of that rank: (2, *shape), pointwise
+        got2 = []
+
+        def fnd():
+            o = np.asarray(P(X[..., 0], X[..., 1]))
+            got2.append(o)
+            if o.shape != (2,) + tuple(shape):
+                return f"SHAPE:{o.shape}"
+            o = o.reshape(2, -1)
+            return "[" + ",".join(frac_s(float(v)) for v in o[0]) + "] [" + ",".join(frac_s(float(v)) for v in o[1]) + "]"
+
+        R.corr(f"c20 polycall2 {head} a:{list_s([p[0] for p in pts], frac_s)} a:{list_s([p[1] for p in pts], frac_s)}", fnd,
+               sig=f"polycall2|nd-rank{len(shape)}|{'shortcut' if A[1] == 0 and A[3] == 0 else 'general'}")
+        if got2 and n and got2[0].shape == (2,) + tuple(shape):
+            o = got2[0].reshape(2, -1)
+            want = [value(cc, k, A, x, y) for x, y in pts]
+            R.oracle(all((F(float(o[0, i])), F(float(o[1, i]))) == want[i] for i in range(n)), "poly2d-array-call-differs-from-pointwise-evaluation",
+                     {"k": k, "cc": list_s(cc, pt_s), "A": aff_in(A), "pts": list_s(pts, pt_s), "shape": list(shape)},
+                     f"P(X, Y) for arrays of shape {shape} = {got2[0].tolist()}", sig=f"call2-pointwise|rank{len(shape)}")
     # ---- Bin1D.__eq__
     for _ in range(R.pick(400, 4000)):
         sz, o, d = F(rng.randint(1, 64), 4), F(rng.randint(-64, 64), 4), rng.choice([1, -1])
@@ -1967,7 +2022,7 @@ def sec_nonfinite(R: Run, M, Affine):
     combos = [(x0, x1, res, off, tol) for x0 in xs for x1 in xs for res in ress for off in offs for tol in tols
               if not all(v is None or math.isfinite(v) for v in (x0, x1, res, off, tol))]
     if R.quick:
-        combos = rng.sample(combos, 4000)
+        combos = rng.sample(combos, 2500)
     for (x0, x1, res, off, tol) in combos:
         got = []
 
@@ -2001,6 +2056,43 @@ def sec_nonfinite(R: Run, M, Affine):
                sig=f"saffx|rot={'nan' if any(math.isnan(v) for v in (vals[1], vals[3])) else 'inf' if any(math.isinf(v) for v in (vals[1], vals[3])) else 'finite'}")
 
 
+def _nums(txt: str):
+    return [F(t) for t in re.split(r"[\s;,\[\]]+", txt) if t]
+
+
+class SoftCorr:
+    """model <-> code comparison for float pipelines whose operation order is an internal matter: the model reproduces
+    today's binary64 result bit for bit, but an algebraically equivalent refactor may move results by a few ulps; such a
+    difference is counted in the evidence, only a difference beyond `rel` (relative to the largest magnitude in the
+    line) is a failure of the oracle `key` (with the input as replay)"""
+
+    def __init__(self, R: Run, key: str, rel: F):
+        self.R, self.key, self.rel, self.items = R, key, rel, []
+
+    def add(self, line: str, real: str, case, sig: str):
+        self.items.append((line, real, case, sig))
+
+    def flush(self):
+        if not self.items:
+            return
+        outs = run_driver("C20", [it[0] for it in self.items])
+        for (line, real, case, sig), model in zip(self.items, outs):
+            self.R.count(f"soft-corr:{sig}")
+            if real == model:
+                continue
+            try:
+                a, b = _nums(real), _nums(model)
+                scale = max([abs(v) for v in a + b] + [F(1)])
+                close = len(a) == len(b) and all(abs(x - y) <= self.rel * scale for x, y in zip(a, b))
+            except Exception:  # pylint: disable=broad-except
+                close = False
+            if close:
+                self.R.count(f"soft-corr:{sig}:differs-within-tolerance")
+            else:
+                self.R.oracle(False, self.key, dict(case, line=line), f"real {real[:300]} / model {model[:300]}", sig=sig)
+        self.items = []
+
+
 def sec_seq(R: Run, M):
     """edge_index (exhaustive on shapes 0..7 x 0..7, open and closed, every accepted spelling of the shape) and
     quasi_random_r2 (bit-exact against the binary64 model: products rounded with C14's fl64, fmod exact; n, offset, shape
@@ -2027,6 +2119,7 @@ def sec_seq(R: Run, M):
                     steps = all(abs(a[0] - b[0]) + abs(a[1] - b[1]) == 1 for a, b in zip(o, o[1:] + o[:1]))
                     R.oracle(ok and steps, "edge-index-does-not-walk-boundary-once", {"shape": [ny, nx], "closed": closed},
                              f"edge_index(({ny},{nx}), closed={closed}) = {got[0]}", sig="edgeidx")
+    soft = SoftCorr(R, "quasi-random-r2-differs-from-model", F(1, 10**12))
     for _ in range(R.pick(300, 3000)):
         n = rng.choice([0, 1, 2, 5, 16, rng.randint(1, 60)])
         offset = rng.choice([0, 0, 1, 7, 1000, rng.randint(0, 2**20), 2**24 - n - 1])
@@ -2040,15 +2133,97 @@ def sec_seq(R: Run, M):
                 return f"SHAPE:{o.shape}"
             return "[" + ",".join(f"{frac_s(float(r[0]))};{frac_s(float(r[1]))}" for r in o) + "]"
 
-        R.corr(f"c20 qr2 {n} {'N' if shape is None else str(shape[0]) + ';' + str(shape[1])} {offset}", fq,
-               sig=f"qr2|{'unit' if shape is None else 'scaled'}|{'n0' if n == 0 else 'n'}")
+        soft.add(f"c20 qr2 {n} {'N' if shape is None else str(shape[0]) + ';' + str(shape[1])} {offset}", guarded(fq),
+                 {"n": n, "shape": shape, "offset": offset}, f"qr2|{'unit' if shape is None else 'scaled'}|{'n0' if n == 0 else 'n'}")
         if got and got[0].shape == (n, 2) and n:
             o = got[0]
             hx, hy = (1, 1) if shape is None else (shape[1], shape[0])
             ok = bool((o[:, 0] >= 0).all() and (o[:, 0] < hx).all() and (o[:, 1] >= 0).all() and (o[:, 1] < hy).all())
             R.oracle(ok, "quasi-random-r2-outside-range", {"n": n, "shape": shape, "offset": offset},
                      f"points outside [0,{hx}) x [0,{hy}): min {o.min(axis=0).tolist()} max {o.max(axis=0).tolist()}", sig="qr2")
+    soft.flush()
     R.assumptions.append("quasi_random_r2: float32 arange is exact (offset + n <= 2^24 in the harness; beyond that consecutive indices collapse)")
+
+
+def sec_normxy(R: Run, M):
+    """norm_xy against the executable model, bit for bit in binary64 (every float operation of the code is a rounding
+    step of the model; the square roots are handed over: sqrt of the squared distances the MODEL computes -- compared
+    first -- and sqrt(2.0)).  3..7 points (numpy's 1-d mean is a plain left-to-right sum below 8 elements), arbitrary
+    doubles and dyadic grids incl. point sets containing their centroid and the all-equal (zero spread) case; `out=`
+    spelling; contract oracle mean 0 / mean distance sqrt 2 / affine maps points, and the argument assertions."""
+    rng = R.rng
+    r2 = math.sqrt(2.0)
+    soft = SoftCorr(R, "norm-xy-differs-from-model", F(1, 10**11))
+    for _ in range(R.pick(400, 4000)):
+        n = rng.randint(3, 7)
+        kind = rng.choice(["int", "dyadic", "float", "float", "big", "centroid", "same"])
+        if kind == "int":
+            pts = [(float(rng.randint(-50, 50)), float(rng.randint(-50, 50))) for _ in range(n)]
+        elif kind == "dyadic":
+            pts = [(rng.randint(-400, 400) / 8, rng.randint(-400, 400) / 8) for _ in range(n)]
+        elif kind == "float":
+            pts = [(rng.uniform(-1e3, 1e3), rng.uniform(-1e3, 1e3)) for _ in range(n)]
+        elif kind == "big":
+            cx, cy = rng.uniform(-1e7, 1e7), rng.uniform(-1e7, 1e7)
+            pts = [(cx + rng.uniform(-50, 50), cy + rng.uniform(-50, 50)) for _ in range(n)]
+        elif kind == "centroid":
+            c = (float(rng.randint(-20, 20)), float(rng.randint(-20, 20)))
+            d = float(rng.randint(1, 9))
+            pts = [(c[0] - d, c[1] - d), (c[0] + d, c[1] - d), (c[0] - d, c[1] + d), (c[0] + d, c[1] + d), c]
+            n = 5
+        else:
+            p0 = (rng.uniform(-100, 100), rng.uniform(-100, 100))
+            pts = [p0] * n
+        arr = np.asarray(pts, dtype="float64")
+        pts_s = list_s(pts, lambda q: frac_s(q[0]) + ";" + frac_s(q[1]))
+        # squared distances as the model computes them in binary64 == what numpy computes here (independent of odc-geo)
+        XXn = arr - arr.mean(axis=0)
+        sq = (XXn ** 2).sum(axis=1)
+        soft.add(f"c20 normxysq {pts_s}", list_s([float(v) for v in sq], frac_s), {"pts": [list(q) for q in pts]}, "normxysq|numpy-reference")
+        ds = [math.sqrt(float(v)) for v in sq]
+        use_out = rng.random() < 0.3
+        got = []
+
+        def fnx():
+            if use_out:
+                out = np.zeros_like(arr)
+                X, A = M.norm_xy(arr.copy(), out=out)
+                assert X is out
+            else:
+                X, A = M.norm_xy(arr.copy())
+            got.append((X, A))
+            return (list_s(X.tolist(), lambda q: frac_s(q[0]) + ";" + frac_s(q[1])) + f" {frac_s(float(A.a))} {frac_s(float(A.c))} {frac_s(float(A.f))}")
+
+        o_nx = guarded(fnx)
+        if kind != "same" or float(np.abs(XXn).max()) == 0.0:      # zero spread off by an ulp: one rounding decides between 1 and 1e14
+            soft.add(f"c20 normxy {pts_s} {list_s(ds, frac_s)} {frac_s(r2)}", o_nx, {"pts": [list(q) for q in pts]},
+                     f"normxy|{kind}|{'out' if use_out else 'plain'}")
+        if got:
+            X, A = got[0]
+            if kind == "same":
+                # zero spread.  When the mean of n equal doubles is that double (always for dyadic-friendly values) the
+                # documented fallback applies: X = 0, scale 1.  Otherwise fl(sum/n) is an ulp off, the "spread" is that ulp
+                # and the scale explodes (~1e14): an IEEE artefact of a degenerate input, recorded as an observation (the
+                # model reproduces it bit for bit); only finiteness and the shape of A are required then.
+                if float(np.abs(arr - arr.mean(axis=0)).max()) == 0.0:
+                    ok = float(np.abs(X).max()) == 0.0 and A.a == 1.0 and A.e == 1.0
+                else:
+                    ok = bool(np.all(np.isfinite(X))) and A.a == A.e and A.a > 0 and A.b == 0 and A.d == 0
+                    R.count("normxy:zero-spread-mean-rounds-off (scale explodes; observation)")
+            else:
+                dist = np.sqrt((X ** 2).sum(axis=1))
+                sc = max(1.0, float(np.abs(arr).max()))
+                ok = (bool(np.all(np.isfinite(X))) and abs(float(dist.mean()) - r2) < 1e-9 * sc and float(np.abs(X.mean(axis=0)).max()) < 1e-9 * sc
+                      and A.b == 0 and A.d == 0 and A.a == A.e
+                      and float(np.abs(np.asarray([A * (float(x), float(y)) for x, y in pts]) - X).max()) < 1e-9 * sc)
+            R.oracle(ok, "norm-xy-contract", {"pts": [list(q) for q in pts]},
+                     f"norm_xy: X={X.tolist()} A={tuple(A)[:6]}", sig=f"normxy|{kind}")
+    soft.flush()
+    for bad in (np.zeros((3,)), np.zeros((3, 3)), np.zeros((2, 2, 2))):
+        r = guarded(lambda: str(M.norm_xy(bad)))
+        R.oracle(r == "ERR:AssertionError", "norm-xy-accepts-wrong-shape", {"shape": list(bad.shape)}, r, trivial=True)
+    r = guarded(lambda: str(M.norm_xy(np.zeros((3, 2)), out=np.zeros((4, 2)))))
+    R.oracle(r == "ERR:AssertionError", "norm-xy-accepts-wrong-shape", {"out": "mismatched"}, r, trivial=True)
 
 
 def sec_growth(R: Run, M, Affine):
@@ -2153,6 +2328,7 @@ def run(R: Run):
     sec_glue(R, M, Affine)
     sec_nonfinite(R, M, Affine)
     sec_seq(R, M)
+    sec_normxy(R, M)
     sec_growth(R, M, Affine)
     R.exhaustive = False
 
